@@ -44,7 +44,7 @@ for pid in claimed:
         subprocess.run(["git", "-C", "/repo", "worktree", "add", "--detach", wt, "HEAD", "-q"], check=True)
     os.makedirs(f"{wt}/seeded", exist_ok=True)
     prev = []
-    for r, suffix in enumerate(["", "-r2", "-r3", "-r4", "-r5", "-r6", "-r7", "-r8", "-r9", "-r10", "-r11", "-r12", "-r13"]):
+    for r, suffix in enumerate(["", "-r2", "-r3", "-r4", "-r5", "-r6", "-r7", "-r8", "-r9", "-r10", "-r11", "-r12", "-r13", "-r14"]):
         f = f"/verif/seeded/{pid}{suffix}/agent_meta.json"
         if os.path.exists(f):
             prev.append(f' ({chr(97 + len(prev))}) "' + str(json.load(open(f)).get("summary", "")).replace('"', "'")[:450] + '"')
